@@ -36,11 +36,14 @@ EXTENDS Integers, Sequences, FiniteSets, TLC, Json
 
 CONSTANTS
   Faithful,   \* TRUE: the real converter's known deviations are successors too
-  Files,      \* subset of {"config", "rules"}
-  Formats,    \* v1 file formats for single-setting documents, subset of {"toml", "yaml", "json"}
-  PairFormats,\* formats for documents with two or more settings
+  Files,      \* subset of {"config", "rules", "helm"}
+  Formats,    \* v1 file formats in which every single-setting document is written, subset of {"toml", "yaml", "json"}
+  AltFormats, \* further formats, used for every AltMod-th row of the settings table
+  AltMod,
+  PairFormats,\* formats for documents with two or more settings and for rules files
   MaxCombo,   \* config: settings per v1 document (1..3)
-  PairScope,  \* "group": pairs within one v1 section; "all": every pair
+  PairMod,    \* config: every PairMod-th pair of settings is combined (1 = all pairs)
+  TripleMod,  \* config: every TripleMod-th admissible triple
   MaxOpt,     \* rules: optional sampler parameters combined per sampler (0..2)
   MaxRules    \* rules: rules per RulesBasedSampler (1..3)
 
@@ -57,14 +60,18 @@ F(x) == [f |-> x]    \* a floating point literal (TLA+ has none); the harness re
 (* nd = val differs from the documented v1 default.                        *)
 (* dev = name of the deviation under which the real converter loses the    *)
 (* setting ("" = none), kind of loss in devk: "drop" (the setting is not   *)
-(* written, v2 default applies), "crash" (the tool fails), "dump" (the     *)
-(* tool writes the v1 document back instead of a v2 file).                 *)
+(* written, v2 default applies), "crash" (the tool fails), "invalid" (the  *)
+(* tool writes a file Refinery rejects).                                   *)
 
-A(grp, key, val, exp, nd) == [grp |-> grp, key |-> key, val |-> val, exp |-> exp, nd |-> nd, dev |-> "", devk |-> ""]
+A(grp, key, val, exp, nd) == [grp |-> grp, key |-> key, val |-> val, exp |-> exp, nd |-> nd, dev |-> "", devk |-> "", jdev |-> "", jdevk |-> ""]
 Same(grp, key, val, k2, nd) == A(grp, key, val, <<[k |-> k2, v |-> val]>>, nd)
 Dur(grp, key, txt, ms, k2, nd) == A(grp, key, txt, <<[k |-> k2, v |-> ms]>>, nd)
 Gone(grp, key, val) == A(grp, key, val, <<>>, FALSE)
 Dev(a, d, k) == [a EXCEPT !.dev = d, !.devk = k]
+\* a deviation that only shows when the v1 file is JSON (the tool reads "JSON and YAML" too): numbers arrive as floats
+JNum(a) == [a EXCEPT !.jdev = "json-number-as-float", !.jdevk = "invalid"]
+JZero(a) == [a EXCEPT !.jdev = "json-memory-size-zero", !.jdevk = "drop"]
+EffDev(a, f) == IF f = "json" /\ a.jdevk # "" THEN [d |-> a.jdev, k |-> a.jdevk] ELSE [d |-> a.dev, k |-> a.devk]
 
 HexKey == "abcdef0123456789abcdef0123456789"
 
@@ -78,15 +85,15 @@ CfgAtoms == <<
   Same("", "CompressPeerCommunication", TRUE, "Specialized.CompressPeerCommunication", FALSE),
   \* "Adding keys here causes events arriving with API keys not in this list to be rejected ...
   \*  If an API key that is a literal '*' is in the list, all API keys are accepted."
-  A("", "APIKeys", <<"*">>, <<[k |-> "AccessKeys.accepts:zzunlistedkey0123456789", v |-> TRUE]>>, FALSE),
+  Dev(A("", "APIKeys", <<"*">>, <<[k |-> "AccessKeys.accepts:zzunlistedkey0123456789", v |-> TRUE]>>, FALSE), "star-key-invalid-yaml", "invalid"),
   A("", "APIKeys", <<"abc123key0123456789ab", "def456key0123456789ab">>,
     <<[k |-> "AccessKeys.ReceiveKeys", v |-> <<"abc123key0123456789ab", "def456key0123456789ab">>],
       [k |-> "AccessKeys.accepts:abc123key0123456789ab", v |-> TRUE],
       [k |-> "AccessKeys.accepts:def456key0123456789ab", v |-> TRUE],
       [k |-> "AccessKeys.accepts:zzunlistedkey0123456789", v |-> FALSE]>>, TRUE),
-  A("", "APIKeys", <<"abc123key0123456789ab", "*">>,
-    <<[k |-> "AccessKeys.accepts:abc123key0123456789ab", v |-> TRUE],
-      [k |-> "AccessKeys.accepts:zzunlistedkey0123456789", v |-> TRUE]>>, TRUE),
+  Dev(A("", "APIKeys", <<"abc123key0123456789ab", "*">>,
+        <<[k |-> "AccessKeys.accepts:abc123key0123456789ab", v |-> TRUE],
+          [k |-> "AccessKeys.accepts:zzunlistedkey0123456789", v |-> TRUE]>>, TRUE), "star-key-invalid-yaml", "invalid"),
   Same("", "HoneycombAPI", "https://api.eu1.honeycomb.io", "Network.HoneycombAPI", TRUE),
   Same("", "HoneycombAPI", "http://hny-proxy.internal:8443/", "Network.HoneycombAPI", TRUE),
   Dur("", "SendDelay", "5s", 5000, "Traces.SendDelay", TRUE),
@@ -96,8 +103,8 @@ CfgAtoms == <<
   Dur("", "TraceTimeout", "90s", 90000, "Traces.TraceTimeout", TRUE),
   Dur("", "TraceTimeout", "1m30s", 90000, "Traces.TraceTimeout", TRUE),
   Dur("", "TraceTimeout", "60s", 60000, "Traces.TraceTimeout", FALSE),
-  Same("", "MaxBatchSize", 1000, "Traces.MaxBatchSize", TRUE),
-  Same("", "MaxBatchSize", 250, "Traces.MaxBatchSize", TRUE),
+  JNum(Same("", "MaxBatchSize", 1000, "Traces.MaxBatchSize", TRUE)),
+  JNum(Same("", "MaxBatchSize", 250, "Traces.MaxBatchSize", TRUE)),
   Same("", "MaxBatchSize", 500, "Traces.MaxBatchSize", FALSE),
   Dur("", "SendTicker", "200ms", 200, "Traces.SendTicker", TRUE),
   \* valid options "debug", "info", "error", "panic"; the v1 default is not documented
@@ -145,12 +152,12 @@ CfgAtoms == <<
   Same("PeerManagement", "UseIPV6Identifier", TRUE, "PeerManagement.UseIPV6Identifier", TRUE),
   Same("PeerManagement", "RedisIdentifier", "192.168.1.1", "PeerManagement.Identifier", TRUE),
   Dur("PeerManagement", "Timeout", "10s", 10000, "RedisPeerManagement.Timeout", TRUE),
-  Dev(Gone("PeerManagement", "Strategy", "hash"), "deprecated-v1-dump", "dump"),
+  Dev(Gone("PeerManagement", "Strategy", "hash"), "deprecated-v1-dump", "invalid"),
   \* ---- [InMemCollector] ---------------------------------------------
-  Dev(Gone("InMemCollector", "CacheCapacity", 1000), "deprecated-v1-dump", "dump"),
-  Same("InMemCollector", "MaxAlloc", 1000000000, "Collection.MaxAlloc", TRUE),
-  Same("InMemCollector", "MaxAlloc", 1073741824, "Collection.MaxAlloc", TRUE),
-  Same("InMemCollector", "MaxAlloc", 1234567890, "Collection.MaxAlloc", TRUE),
+  Dev(Gone("InMemCollector", "CacheCapacity", 1000), "deprecated-v1-dump", "invalid"),
+  JZero(Same("InMemCollector", "MaxAlloc", 1000000000, "Collection.MaxAlloc", TRUE)),
+  JZero(Same("InMemCollector", "MaxAlloc", 1073741824, "Collection.MaxAlloc", TRUE)),
+  JZero(Same("InMemCollector", "MaxAlloc", 1234567890, "Collection.MaxAlloc", TRUE)),
   \* ---- [HoneycombLogger] --------------------------------------------
   Same("HoneycombLogger", "LoggerHoneycombAPI", "https://api.eu1.honeycomb.io", "HoneycombLogger.APIHost", TRUE),
   Same("HoneycombLogger", "LoggerAPIKey", HexKey, "HoneycombLogger.APIKey", TRUE),
@@ -173,19 +180,19 @@ CfgAtoms == <<
   Dur("GRPCServerParameters", "Time", "15s", 15000, "GRPCServerParameters.KeepAlive", TRUE),
   Dur("GRPCServerParameters", "Timeout", "3s", 3000, "GRPCServerParameters.KeepAliveTimeout", TRUE),
   \* ---- [SampleCacheConfig] (the name the v1 reference documents) ------
-  Dev(Gone("SampleCacheConfig", "Type", "cuckoo"), "deprecated-v1-dump", "dump"),
-  Same("SampleCacheConfig", "KeptSize", 20000, "SampleCache.KeptSize", TRUE),
-  Same("SampleCacheConfig", "DroppedSize", 2000000, "SampleCache.DroppedSize", TRUE),
+  Dev(Gone("SampleCacheConfig", "Type", "cuckoo"), "deprecated-v1-dump", "invalid"),
+  JNum(Same("SampleCacheConfig", "KeptSize", 20000, "SampleCache.KeptSize", TRUE)),
+  JNum(Same("SampleCacheConfig", "DroppedSize", 2000000, "SampleCache.DroppedSize", TRUE)),
   Dur("SampleCacheConfig", "SizeCheckInterval", "20s", 20000, "SampleCache.SizeCheckInterval", TRUE),
   \* ---- [StressRelief] -----------------------------------------------
   Same("StressRelief", "Mode", "monitor", "StressRelief.Mode", TRUE),
   Same("StressRelief", "Mode", "always", "StressRelief.Mode", TRUE),
-  Same("StressRelief", "ActivationLevel", 85, "StressRelief.ActivationLevel", TRUE),
-  Same("StressRelief", "ActivationLevel", 75, "StressRelief.ActivationLevel", FALSE),
-  Same("StressRelief", "DeactivationLevel", 50, "StressRelief.DeactivationLevel", TRUE),
-  Same("StressRelief", "StressSamplingRate", 250, "StressRelief.SamplingRate", TRUE),
+  JNum(Same("StressRelief", "ActivationLevel", 85, "StressRelief.ActivationLevel", TRUE)),
+  JNum(Same("StressRelief", "ActivationLevel", 75, "StressRelief.ActivationLevel", FALSE)),
+  JNum(Same("StressRelief", "DeactivationLevel", 50, "StressRelief.DeactivationLevel", TRUE)),
+  JNum(Same("StressRelief", "StressSamplingRate", 250, "StressRelief.SamplingRate", TRUE)),
   Dur("StressRelief", "MinimumActivationDuration", "30s", 30000, "StressRelief.MinimumActivationDuration", TRUE),
-  Dev(Gone("StressRelief", "MinimumStartupDuration", "3s"), "deprecated-v1-dump", "dump")
+  Dev(Gone("StressRelief", "MinimumStartupDuration", "3s"), "deprecated-v1-dump", "invalid")
 >>
 
 NC == Len(CfgAtoms)
@@ -199,25 +206,25 @@ V2Default(k) ==
     [] k = "IDFields.ParentNames" -> <<"trace.parent_id", "parentId">>
     [] k = "RedisPeerManagement.Password" -> ""
     [] k = "HoneycombLogger.SamplerThroughput" -> 10
+    [] k = "Collection.MaxAlloc" -> 0
     [] OTHER -> "<v2 default>"
 
 \* two rows may be combined when they are different settings
 Compatible(i, j) == i < j /\ ~(CfgAtoms[i].grp = CfgAtoms[j].grp /\ CfgAtoms[i].key = CfgAtoms[j].key)
-                    /\ (PairScope = "all" \/ CfgAtoms[i].grp = CfgAtoms[j].grp)
+                    /\ (i * 31 + j) % PairMod = 0
 
-CfgCombos ==
-  {<<i>> : i \in 1..NC}
-  \cup (IF MaxCombo >= 2 THEN {<<i, j>> : i \in 1..NC, j \in 1..NC} \cap {c \in Seq(1..NC) : Len(c) = 2 /\ Compatible(c[1], c[2])} ELSE {})
+CfgSingles == {<<i>> : i \in 1..NC}
+CfgPairs == IF MaxCombo >= 2 THEN {c \in {<<i, j>> : i \in 1..NC, j \in 1..NC} : Compatible(c[1], c[2])} ELSE {}
 
-\* (the triples are restricted to one row per section, the first value of each setting)
+\* triples: one row per section, the first value of each setting, a fixed slice
 FirstOf(i) == \A j \in 1..(i-1) : ~(CfgAtoms[j].grp = CfgAtoms[i].grp /\ CfgAtoms[j].key = CfgAtoms[i].key)
+NDFirst == {i \in 1..NC : FirstOf(i) /\ CfgAtoms[i].nd}
 CfgTriples ==
   IF MaxCombo >= 3
-  THEN {c \in {<<i, j, l>> : i \in 1..NC, j \in 1..NC, l \in 1..NC} :
+  THEN {c \in {<<i, j, l>> : i \in NDFirst, j \in NDFirst, l \in NDFirst} :
           /\ c[1] < c[2] /\ c[2] < c[3]
-          /\ \A x \in 1..3 : FirstOf(c[x]) /\ CfgAtoms[c[x]].nd
-          /\ CfgAtoms[c[1]].grp # CfgAtoms[c[2]].grp /\ CfgAtoms[c[2]].grp # CfgAtoms[c[3]].grp /\ CfgAtoms[c[1]].grp # CfgAtoms[c[3]].grp
-          /\ (c[1] + c[2] + c[3]) % 7 = 0}   \* a fixed 1-in-7 slice keeps the thorough tier inside its budget
+          /\ (c[1] * 7 + c[2] * 3 + c[3]) % TripleMod = 0
+          /\ CfgAtoms[c[1]].grp # CfgAtoms[c[2]].grp /\ CfgAtoms[c[2]].grp # CfgAtoms[c[3]].grp /\ CfgAtoms[c[1]].grp # CfgAtoms[c[3]].grp}
   ELSE {}
 
 \* the v1 document of a combination: top-level keys and one record per section
@@ -226,20 +233,26 @@ SecOf(c, g) == [key \in {CfgAtoms[c[x]].key : x \in {y \in DOMAIN c : CfgAtoms[c
                   CfgAtoms[CHOOSE i \in Range(c) : CfgAtoms[i].grp = g /\ CfgAtoms[i].key = key].val]
 CfgDoc(c) == SecOf(c, "") @@ [g \in Grps(c) |-> SecOf(c, g)]
 
-Flat(ss) == IF Len(ss) = 0 THEN <<>> ELSE IF Len(ss) = 1 THEN ss[1]
-            ELSE IF Len(ss) = 2 THEN ss[1] \o ss[2] ELSE ss[1] \o ss[2] \o ss[3]
+RECURSIVE Flat(_)
+Flat(ss) == IF Len(ss) = 0 THEN <<>> ELSE ss[1] \o Flat(Tail(ss))
 
 CfgAll(c)  == Flat([x \in DOMAIN c |-> CfgAtoms[c[x]].exp])                                   \* every explicit setting that still exists
 CfgWant(c) == Flat([x \in DOMAIN c |-> IF CfgAtoms[c[x]].nd THEN CfgAtoms[c[x]].exp ELSE <<>>]) \* clause (2): the non-default ones
-CfgDevs(c, kind) == {CfgAtoms[c[x]].dev : x \in {y \in DOMAIN c : CfgAtoms[c[y]].devk = kind}}
-CfgLost(c, D) == Flat([x \in DOMAIN c |-> IF CfgAtoms[c[x]].devk = "drop" /\ CfgAtoms[c[x]].dev \in D THEN CfgAtoms[c[x]].exp ELSE <<>>])
+\* (losing a setting the property does not speak about is not observable: only nd rows count as dropped)
+CfgDevs(c, kind, f) == {EffDev(CfgAtoms[c[x]], f).d :
+                          x \in {y \in DOMAIN c : EffDev(CfgAtoms[c[y]], f).k = kind /\ (kind # "drop" \/ CfgAtoms[c[y]].nd)}}
+CfgLost(c, D, f) == Flat([x \in DOMAIN c |-> IF EffDev(CfgAtoms[c[x]], f).k = "drop" /\ EffDev(CfgAtoms[c[x]], f).d \in D
+                                               THEN CfgAtoms[c[x]].exp ELSE <<>>])
 
-CfgInputs ==
-  { [file |-> "config", fmt |-> f, doc |-> CfgDoc(c), all |-> CfgAll(c), want |-> CfgWant(c),
-     drops |-> CfgDevs(c, "drop"), crash |-> CfgDevs(c, "crash"), dump |-> CfgDevs(c, "dump"),
-     lost |-> [D \in SUBSET CfgDevs(c, "drop") |-> CfgLost(c, D)]]
-    : c \in CfgCombos \cup CfgTriples, f \in Formats \cup PairFormats }
-  \ { i \in [file : {"config"}, fmt : (Formats \cup PairFormats) \ Formats, doc : {CfgDoc(<<x>>) : x \in 1..NC}, all : {CfgAll(<<x>>) : x \in 1..NC}] : FALSE }
+CfgIn(c, f) ==
+  [file |-> "config", fmt |-> f, doc |-> CfgDoc(c), all |-> CfgAll(c), want |-> CfgWant(c),
+   drops |-> CfgDevs(c, "drop", f), crash |-> CfgDevs(c, "crash", f), invalid |-> CfgDevs(c, "invalid", f),
+   lost |-> [D \in SUBSET CfgDevs(c, "drop", f) |-> CfgLost(c, D, f)]]
+
+\* descriptors (plain tuples) rather than the documents themselves are enumerated
+CfgDescs == {<<"config", f, c>> : f \in Formats, c \in CfgSingles}
+            \cup {<<"config", f, c>> : f \in AltFormats, c \in {<<i>> : i \in {j \in 1..NC : j % AltMod = 0}}}
+            \cup {<<"config", f, c>> : f \in PairFormats, c \in CfgPairs \cup CfgTriples}
 
 -----------------------------------------------------------------------------
 (* v1 RULES files.  A sampler "case" is the v1 section of one destination  *)
@@ -283,51 +296,53 @@ Opts(kind) == CASE kind = "Dyn" -> DynOpts [] kind = "EMA" -> EMAOpts [] kind = 
 OptSets(kind) == {<<>>}
   \cup (IF MaxOpt >= 1 THEN {<<i>> : i \in DOMAIN Opts(kind)} ELSE {})
   \cup (IF MaxOpt >= 2 THEN {c \in {<<i, j>> : i \in DOMAIN Opts(kind), j \in DOMAIN Opts(kind)} :
-                               c[1] < c[2] /\ ~(Opts(kind)[c[1]].exp # <<>> /\ Opts(kind)[c[1]].exp = Opts(kind)[c[2]].exp)} ELSE {})
+                               c[1] < c[2] /\ ~(Opts(kind)[c[1]].exp # <<>> /\ Opts(kind)[c[2]].exp # <<>>
+                                                  /\ Opts(kind)[c[1]].exp[1].p = Opts(kind)[c[2]].exp[1].p)} ELSE {})
 
 WithOpts(kind, c) ==
   [sec |-> Base(kind).sec @@ [key \in {Opts(kind)[c[x]].key : x \in DOMAIN c} |-> Opts(kind)[CHOOSE i \in Range(c) : Opts(kind)[i].key = key].val],
    exp |-> Base(kind).exp \o Flat([x \in DOMAIN c |-> IF Opts(kind)[c[x]].nd THEN Opts(kind)[c[x]].exp ELSE <<>>])]
 
 \* rules of a RulesBasedSampler, spelled as rules_complete.1.x.toml spells them
+\* (dev: the deviation under which the converter's output for this rule is rejected by the loader)
 Cond(f, o, v) == [field |-> f, operator |-> o, value |-> v]
 RuleTemplates == <<
-  [r |-> [name |-> "drop healthchecks", drop |-> TRUE, condition |-> <<Cond("http.route", "=", "/health-check")>>],
+  [dev |-> "", r |-> [name |-> "drop healthchecks", drop |-> TRUE, condition |-> <<Cond("http.route", "=", "/health-check")>>],
    exp |-> <<P("Name", "drop healthchecks"), P("Drop", TRUE), P("Conditions/@len", 1), P("Conditions/0/Field", "http.route"),
              P("Conditions/0/Operator", "="), P("Conditions/0/Value", "/health-check")>>],
-  [r |-> [name |-> "keep slow 500 errors", SampleRate |-> 1,
+  [dev |-> "", r |-> [name |-> "keep slow 500 errors", SampleRate |-> 1,
           condition |-> <<Cond("status_code", "=", 500), Cond("duration_ms", ">=", F("1000.789"))>>],
    exp |-> <<P("Name", "keep slow 500 errors"), P("SampleRate", 1), P("Drop", FALSE), P("Conditions/@len", 2),
              P("Conditions/0/Value", 500), P("Conditions/1/Field", "duration_ms"), P("Conditions/1/Operator", ">="),
              P("Conditions/1/Value", F("1000.789"))>>],
-  [r |-> [name |-> "dynamically sample 200 responses", condition |-> <<Cond("status_code", "=", 200)>>,
+  [dev |-> "", r |-> [name |-> "dynamically sample 200 responses", condition |-> <<Cond("status_code", "=", 200)>>,
           sampler |-> [EMADynamicSampler |-> [Sampler |-> "EMADynamicSampler", GoalSampleRate |-> 15, FieldList |-> FL2, AdjustmentInterval |-> 20]]],
    exp |-> <<P("Name", "dynamically sample 200 responses"), P("Conditions/0/Value", 200),
              P("Sampler/EMADynamicSampler/GoalSampleRate", 15), P("Sampler/EMADynamicSampler/FieldList", FL2),
              P("Sampler/EMADynamicSampler/AdjustmentInterval", 20000)>>],
-  [r |-> [name |-> "string 200", SampleRate |-> 20,
+  [dev |-> "", r |-> [name |-> "string 200", SampleRate |-> 20,
           condition |-> <<[field |-> "status_code", operator |-> "=", value |-> "200", datatype |-> "int"]>>],
    exp |-> <<P("SampleRate", 20), P("Conditions/0/Value", "200"), P("Conditions/0/Datatype", "int")>>],
-  [r |-> [name |-> "sample traces originating from a service", Scope |-> "span", SampleRate |-> 5,
+  [dev |-> "", r |-> [name |-> "sample traces originating from a service", Scope |-> "span", SampleRate |-> 5,
           condition |-> <<Cond("service name", "=", "users"), Cond("trace.parent_id", "=", "root")>>],
    exp |-> <<P("Scope", "span"), P("SampleRate", 5), P("Conditions/@len", 2), P("Conditions/0/Field", "service name"),
              P("Conditions/1/Value", "root")>>],
-  [r |-> [SampleRate |-> 10],
+  [dev |-> "", r |-> [SampleRate |-> 10],
    exp |-> <<P("SampleRate", 10), P("Conditions/@len", 0)>>],
-  [r |-> [name |-> "has error", SampleRate |-> 2, condition |-> <<[field |-> "error", operator |-> "exists"]>>],
+  [dev |-> "exists-condition-null-value", r |-> [name |-> "has error", SampleRate |-> 2, condition |-> <<[field |-> "error", operator |-> "exists"]>>],
    exp |-> <<P("SampleRate", 2), P("Conditions/0/Field", "error"), P("Conditions/0/Operator", "exists")>>],
-  [r |-> [name |-> "dynamic downstream", condition |-> <<Cond("app.tenant", "!=", "internal")>>,
+  [dev |-> "", r |-> [name |-> "dynamic downstream", condition |-> <<Cond("app.tenant", "!=", "internal")>>,
           sampler |-> [DynamicSampler |-> [Sampler |-> "DynamicSampler", SampleRate |-> 3, FieldList |-> FL2, ClearFrequencySec |-> 45]]],
    exp |-> <<P("Conditions/0/Operator", "!="), P("Sampler/DynamicSampler/SampleRate", 3), P("Sampler/DynamicSampler/FieldList", FL2),
              P("Sampler/DynamicSampler/ClearFrequency", 45000)>>],
-  [r |-> [name |-> "throughput downstream", condition |-> <<Cond("http.route", "starts-with", "/api/")>>,
+  [dev |-> "", r |-> [name |-> "throughput downstream", condition |-> <<Cond("http.route", "starts-with", "/api/")>>,
           sampler |-> [TotalThroughputSampler |-> [Sampler |-> "TotalThroughputSampler", GoalThroughputPerSec |-> 50, FieldList |-> <<"http.route">>]]],
    exp |-> <<P("Conditions/0/Operator", "starts-with"), P("Sampler/TotalThroughputSampler/GoalThroughputPerSec", 50),
              P("Sampler/TotalThroughputSampler/FieldList", <<"http.route">>)>>],
-  [r |-> [name |-> "errors flag", SampleRate |-> 3, condition |-> <<Cond("error", "=", TRUE), Cond("retries", ">", 2)>>],
+  [dev |-> "", r |-> [name |-> "errors flag", SampleRate |-> 3, condition |-> <<Cond("error", "=", TRUE), Cond("retries", ">", 2)>>],
    exp |-> <<P("SampleRate", 3), P("Conditions/0/Value", TRUE), P("Conditions/1/Operator", ">"), P("Conditions/1/Value", 2)>>],
   \* v1 read its files case-insensitively
-  [r |-> [Name |-> "lower case keys", samplerate |-> 7, scope |-> "span", Condition |-> <<[Field |-> "http.status", Operator |-> "<", Value |-> 400]>>],
+  [dev |-> "", r |-> [Name |-> "lower case keys", samplerate |-> 7, scope |-> "span", Condition |-> <<[Field |-> "http.status", Operator |-> "<", Value |-> 400]>>],
    exp |-> <<P("Name", "lower case keys"), P("SampleRate", 7), P("Scope", "span"), P("Conditions/0/Field", "http.status"),
              P("Conditions/0/Operator", "<"), P("Conditions/0/Value", 400)>>]
 >>
@@ -349,44 +364,74 @@ RBCase(c, nested) ==
 DetCase(r) == [sec |-> [Sampler |-> "DeterministicSampler", SampleRate |-> r],
                exp |-> <<P("@type", "DeterministicSampler"), P("SampleRate", r)>>]
 
-SamplerCases ==
-  {DetCase(10), DetCase(100)}
-  \cup {[sec |-> [SampleRate |-> 10], exp |-> <<P("SampleRate", 10)>>]}      \* a section that names no Sampler
-  \cup {WithOpts(k, c) : k \in {"Dyn"}, c \in OptSets("Dyn")}
-  \cup {WithOpts(k, c) : k \in {"EMA"}, c \in OptSets("EMA")}
-  \cup {WithOpts(k, c) : k \in {"TT"}, c \in OptSets("TT")}
-  \cup {RBCase(c, FALSE) : c \in RuleSeqs}
-  \cup {RBCase(<<1, 6>>, TRUE)}
+\* sampler cases are enumerated as plain descriptors <<kind, a, b>> and built on demand
+SamplerDescs ==
+  {<<"Det", 10, 0>>, <<"Det", 100, 0>>, <<"NoName", 10, 0>>}      \* NoName: a section that names no Sampler
+  \cup {<<k, c, 0>> : k \in {"Dyn"}, c \in OptSets("Dyn")}
+  \cup {<<k, c, 0>> : k \in {"EMA"}, c \in OptSets("EMA")}
+  \cup {<<k, c, 0>> : k \in {"TT"}, c \in OptSets("TT")}
+  \cup {<<"RB", c, FALSE>> : c \in RuleSeqs}
+  \cup {<<"RB", <<1, 6>>, TRUE>>}
+
+Case(d) ==
+  CASE d[1] = "Det" -> DetCase(d[2])
+    [] d[1] = "NoName" -> [sec |-> [SampleRate |-> d[2]], exp |-> <<P("SampleRate", d[2])>>]
+    [] d[1] = "RB" -> RBCase(d[2], d[3])
+    [] OTHER -> WithOpts(d[1], d[2])
 
 Datasets == {"dataset1", "dataset 1", "prod.us-east"}
 
-\* the file: the default destination at top level, optionally one named destination;
 \* DryRun/DryRunFieldName are v1 rules-file settings with no place in a v2 rules file
-RuleFiles ==
-  {[top |-> d, ds |-> "", sec |-> <<>>, flags |-> <<>>] : d \in SamplerCases}
-  \cup {[top |-> DetCase(10), ds |-> n, sec |-> s, flags |-> <<>>] : n \in {"dataset1"}, s \in SamplerCases}
-  \cup {[top |-> DetCase(10), ds |-> n, sec |-> WithOpts("Dyn", <<>>), flags |-> <<>>] : n \in Datasets}
-  \cup {[top |-> DetCase(100), ds |-> "dataset1", sec |-> RBCase(<<1, 6>>, FALSE), flags |-> fl]
-          : fl \in {[DryRun |-> TRUE], [DryRun |-> FALSE, DryRunFieldName |-> "refinery_kept"]}}
+Flags == << <<>>, [DryRun |-> TRUE], [DryRun |-> FALSE, DryRunFieldName |-> "refinery_kept"] >>
 
-RulesDoc(rf) == rf.top.sec @@ rf.flags @@ (IF rf.ds = "" THEN <<>> ELSE (rf.ds :> rf.sec.sec))
-RulesWant(rf) ==
-  [x \in DOMAIN rf.top.exp |-> [k |-> "rules:zz-not-listed/" \o rf.top.exp[x].p, v |-> rf.top.exp[x].v]]
-  \o (IF rf.ds = "" THEN <<>> ELSE [x \in DOMAIN rf.sec.exp |-> [k |-> "rules:" \o rf.ds \o "/" \o rf.sec.exp[x].p, v |-> rf.sec.exp[x].v]])
+\* the file: the default destination at top level, optionally one named destination:
+\* <<top case, dataset name or "", its case, index into Flags>>
+RuleDescs ==
+  {<<d, "", <<"Det", 10, 0>>, 1>> : d \in {x \in SamplerDescs : x[1] # "RB" \/ Len(x[2]) = 1}}
+  \cup {<<(<<"Det", 10, 0>>), n, s, 1>> : n \in {"dataset1"}, s \in SamplerDescs}
+  \cup {<<(<<"Det", 10, 0>>), n, (<<"Dyn", <<>>, 0>>), 1>> : n \in Datasets}
+  \cup {<<(<<"Det", 100, 0>>), "dataset1", (<<"RB", <<1, 6>>, FALSE>>), fl>> : fl \in {2, 3}}
 
-RulesInputs ==
-  { [file |-> "rules", fmt |-> f, doc |-> RulesDoc(rf), all |-> RulesWant(rf), want |-> RulesWant(rf),
-     drops |-> {}, crash |-> {}, dump |-> {}, lost |-> [D \in {{}} |-> <<>>]]
-    : rf \in RuleFiles, f \in PairFormats }
+RulesDoc(rd) == Case(rd[1]).sec @@ Flags[rd[4]] @@ (IF rd[2] = "" THEN <<>> ELSE (rd[2] :> Case(rd[3]).sec))
+RulesWant(rd) ==
+  [x \in DOMAIN Case(rd[1]).exp |-> [k |-> "rules:zz-not-listed/" \o Case(rd[1]).exp[x].p, v |-> Case(rd[1]).exp[x].v]]
+  \o (IF rd[2] = "" THEN <<>>
+      ELSE [x \in DOMAIN Case(rd[3]).exp |-> [k |-> "rules:" \o rd[2] \o "/" \o Case(rd[3]).exp[x].p, v |-> Case(rd[3]).exp[x].v]])
+
+CaseDevs(d) == IF d[1] = "RB" THEN {RuleTemplates[d[2][x]].dev : x \in DOMAIN d[2]} \ {""} ELSE {}
+RulesIn(rd, f) ==
+  [file |-> "rules", fmt |-> f, doc |-> RulesDoc(rd), all |-> RulesWant(rd), want |-> RulesWant(rd),
+   drops |-> {}, crash |-> {}, invalid |-> CaseDevs(rd[1]) \cup (IF rd[2] = "" THEN {} ELSE CaseDevs(rd[3])),
+   lost |-> [D \in {{}} |-> <<>>]]
+
+RulesDescs == {<<"rules", f, rd>> : f \in PairFormats, rd \in RuleDescs}
 
 -----------------------------------------------------------------------------
-Inputs == (IF "config" \in Files THEN CfgInputs ELSE {}) \cup (IF "rules" \in Files THEN RulesInputs ELSE {})
+(* `convert helm`: a helm values file whose `config` and `rules` sections  *)
+(* are a v1 config and a v1 rules file; both are converted in place.  Only *)
+(* settings without a known deviation are used here (the deviations are    *)
+(* pinned down on the plain files).                                        *)
+HelmAtoms == {i \in 1..NC : CfgAtoms[i].devk = "" /\ CfgAtoms[i].nd /\ FirstOf(i) /\ i % 4 = 1}
+HelmRules == {<<(<<"Det", 10, 0>>), "dataset1", (<<"Dyn", <<>>, 0>>), 1>>,
+              <<(<<"Det", 100, 0>>), "dataset1", (<<"RB", <<2, 3>>, FALSE>>), 1>>,
+              <<(<<"EMA", <<2>>, 0>>), "", (<<"Det", 10, 0>>), 1>>}
+HelmDescs == {<<"helm", "yaml", <<i>>, rd>> : i \in HelmAtoms, rd \in HelmRules}
+HelmIn(c, rd) ==
+  [file |-> "helm", fmt |-> "yaml", doc |-> [config |-> CfgDoc(c), rules |-> RulesDoc(rd), replicaCount |-> 3],
+   all |-> CfgAll(c) \o RulesWant(rd), want |-> CfgWant(c) \o RulesWant(rd),
+   drops |-> {}, crash |-> {}, invalid |-> {}, lost |-> [D \in {{}} |-> <<>>]]
+
+Descs == (IF "config" \in Files THEN CfgDescs ELSE {}) \cup (IF "rules" \in Files THEN RulesDescs ELSE {})
+         \cup (IF "helm" \in Files THEN HelmDescs ELSE {})
+Build(d) == CASE d[1] = "config" -> CfgIn(d[3], d[2])
+              [] d[1] = "rules" -> RulesIn(d[3], d[2])
+              [] d[1] = "helm" -> HelmIn(d[3], d[4])
 
 Keys(want) == [x \in DOMAIN want |-> want[x].k]
 NoRes == [stage |-> "none"]
 NoOut == [kind |-> "none"]
 
-Init == /\ inp \in Inputs
+Init == /\ \E d \in Descs : inp = Build(d)
         /\ phase = "v1"
         /\ out = NoOut
         /\ conv = "none"
@@ -402,12 +447,13 @@ ConvertIdeal ==
   /\ UNCHANGED <<inp, res>>
   /\ act' = [name |-> "Convert"]
 
-\* deviation: a deprecated v2 name is found in the v1 document and the tool writes the v1 document back
-ConvertDump ==
-  /\ Faithful /\ phase = "v1" /\ inp.dump # {}
+\* deviation: the tool writes something Refinery rejects (deprecated-v1-dump: a name that is deprecated in v2
+\* is found in the v1 document and the v1 document is written back; star-key-invalid-yaml: `- *` is not YAML)
+ConvertInvalid(d) ==
+  /\ Faithful /\ phase = "v1" /\ d \in inp.invalid
   /\ phase' = "v2"
   /\ conv' = "ok"
-  /\ out' = [kind |-> "v1dump", entries |-> <<>>, devs |-> inp.dump]
+  /\ out' = [kind |-> "invalid", entries |-> <<>>, devs |-> {d}]
   /\ UNCHANGED <<inp, res>>
   /\ act' = [name |-> "Convert"]
 
@@ -442,10 +488,11 @@ Load ==
                   eff |-> [k \in Range(Keys(inp.want)) |-> IF IsLost(k) THEN V2Default(k) ELSE Lookup(out.entries, k)]]
   /\ UNCHANGED <<inp, out, conv>>
   /\ act' = IF conv = "ok" /\ out.kind # "none" /\ out.devs # {}
-            THEN [name |-> "Load", dev |-> CHOOSE d \in out.devs : \A e \in out.devs : d = e \/ TRUE]
+            THEN [name |-> "Load", dev |-> CHOOSE d \in out.devs : TRUE]
             ELSE [name |-> "Load"]
 
-Next == \/ ConvertIdeal \/ ConvertDump \/ ConvertCrash
+Next == \/ ConvertIdeal \/ ConvertCrash
+        \/ \E d \in inp.invalid : ConvertInvalid(d)
         \/ \E D \in SUBSET inp.drops : ConvertDrop(D)
         \/ Load
 
@@ -455,7 +502,7 @@ Spec == Init /\ [][Next]_vars
 TypeOK == /\ phase \in {"v1", "v2", "loaded"}
           /\ conv \in {"none", "ok", "failed"}
           /\ res.stage \in {"none", "loaded", "rejected"}
-          /\ inp.file \in {"config", "rules"}
+          /\ inp.file \in {"config", "rules", "helm"}
           /\ (phase = "v1") <=> (conv = "none")
           /\ (phase = "loaded") <=> (res.stage # "none")
 
@@ -470,8 +517,9 @@ Preserved == (phase = "loaded" /\ res.stage = "loaded") =>
 OnlyListed == (phase = "loaded" /\ ~(res.stage = "loaded" /\ res.valid /\ \A x \in DOMAIN inp.want : res.eff[inp.want[x].k] = inp.want[x].v))
                 => (conv = "failed" /\ inp.crash # {}) \/ (out.kind # "none" /\ out.devs # {})
 \* ... and each listed deviation does break it (they are findings, not conventions)
-DevsBreak == (phase = "loaded" /\ out.kind # "none" /\ out.devs # {} /\ res.stage = "loaded")
-                => \E x \in DOMAIN inp.want : res.eff[inp.want[x].k] # inp.want[x].v \/ inp.want = <<>>
+DevsBreak == (phase = "loaded" /\ out.kind # "none" /\ out.devs # {})
+                => \/ res.stage # "loaded"
+                   \/ \E x \in DOMAIN inp.want : res.eff[inp.want[x].k] # inp.want[x].v
 
 -----------------------------------------------------------------------------
 Abs == [phase |-> phase, conv |-> conv, res |-> res]
